@@ -1333,6 +1333,11 @@ def call_method(it, v, name, args, kwargs):
         env = getattr(ctx, 'env', None)
         if env is not None and hasattr(env, 'opaque_method') and v.tag != 'val':
             return env.opaque_method(it, v, name, args, kwargs)
+        if v.tag == 'val' and v.term.sort() == _seq.Val and not kwargs and name == 'get' and 1 <= len(args) <= 2 and is_str(args[0]):
+            # dict.get on a decoded document: the value under the key if the document has it, else the default
+            if ctx.decide(_seq.v_has(v.term, str_term(args[0]))):
+                return OpaqueVal(_seq.v_get(v.term, str_term(args[0])), 'val')
+            return args[1] if len(args) == 2 else None
         if v.tag == 'val' and v.term.sort() == _seq.Val and not kwargs and name in ('strip', 'rstrip', 'lstrip', 'upper', 'lower',
                                                                                   'title', 'replace', 'zfill', 'ljust', 'rjust'):
             # a text method applied to a value taken out of a decoded document: a function of (value, method, arguments)
